@@ -5,14 +5,24 @@ import json
 from .. import gen, l4, scen
 
 
-def make_base(ctx, k):
+def make_base(ctx, k, long=False):
     nb = ctx.rng.choice([2, 3, 3, 4])
     trees = [scen.small_tree(ctx.rng)]
     for _ in range(nb - 1):
         t, _m = gen.mutate_tree(ctx.rng, trees[-1])
         trees.append(t)
+    if long:
+        # a long history: many kept versions, one file rewritten in every version (a block only that version refers to)
+        nb = ctx.rng.choice([10, 12, 14])
+        t0 = {"k": "d", "mode": 0o755, "mtime": 10**18, "c": {
+            "stable": {"k": "f", "data": gen.rand_bytes(ctx.rng, 6).hex(), "mode": 0o644, "mtime": 10**18 + 1}}}
+        trees = []
+        for j in range(nb):
+            t = json.loads(json.dumps(t0))
+            t["c"]["changing"] = {"k": "f", "data": (b"v%02d-" % j + gen.rand_bytes(ctx.rng, 3)).hex(), "mode": 0o644, "mtime": 10**18 + 10 + j}
+            trees.append(t)
     combo = None
-    if k % 3 == 2:
+    if k % 3 == 2 and not long:
         # small files sharing ONE combined block; the next version drops (or rewrites) the file at the block's start and keeps
         # the others unchanged, so it refers to that block only at offsets above zero
         def cf(d, m):
@@ -28,16 +38,16 @@ def make_base(ctx, k):
     steps = [{"op": "init"}]
     # every third base: a version in the middle is the file-less leftover of a backup killed before it wrote its head
     # (a listed version directory that cannot be opened): deleting it must work like deleting any other
-    headless = [ctx.rng.randrange(0, nb - 1)] if (k % 3 == 1 and nb >= 2) else []
+    headless = [ctx.rng.randrange(0, nb - 1)] if (k % 3 == 1 and nb >= 2 and not long) else []
     for j, t in enumerate(trees):
-        st = {"op": "backup", "opts": combo or scen.small_opts(ctx.rng)}
+        st = {"op": "backup", "opts": combo or ({"meph": 100000, "mbs": 64, "sfc": 0} if long else scen.small_opts(ctx.rng))}
         if j in headless:
             st["plan"] = {"crash": ctx.rng.choice([5, 6])}
         steps += [{"op": "mktree", "path": "src", "tree": t}, {"op": "walk"}, st]
     steps.append({"op": "arch"})
     for b in range(nb):
         steps.append({"op": "restore", "band": b, "dest": f"ref{b}"})
-    return {"id": f"D{k}", "nb": nb, "trees": trees, "steps": steps, "headless": headless, "combo": combo is not None}
+    return {"id": f"D{k}", "nb": nb, "trees": trees, "steps": steps, "headless": headless, "combo": combo is not None, "long": long}
 
 
 def after_steps(nb):
@@ -106,6 +116,7 @@ def check_after(ctx, base, ids, dry, rules_desc, r_del, post, kind, pre_arch):
 def run(ctx):
     quick = ctx.tier == "quick"
     bases = [make_base(ctx, k) for k in range(3 if quick else 40)]
+    bases += [make_base(ctx, len(bases) + j, long=True) for j in range(1 if quick else 4)]
     ctx.cov["rule"] = ("archives from histories of 2-4 versions x subsets of versions to delete (none = pure gc, some, all) x {dry-run, real}; for real "
                        "runs EVERY crash point of the delete's storage trace and EVERY single failing read/list operation; oracle: exactly the "
                        "requested versions are gone, every kept complete version restores exactly as before, no referenced block removed, no "
@@ -120,7 +131,9 @@ def run(ctx):
         b["ref"] = r
         nb = b["nb"]
         subsets = [[]] + [list(s) for k in range(1, nb + 1) for s in itertools.combinations(range(nb), k)]
-        if quick:
+        if b.get("long"):
+            subsets = [[], sorted(ctx.rng.sample(range(nb), 2)), [0], [nb - 1]]
+        elif quick:
             subsets = [[]] + ctx.rng.sample(subsets[1:], min(3, len(subsets) - 1))
             if nb >= 2 and not any(len(x) >= 2 for x in subsets):
                 subsets.append(list(range(nb))[-2:])
@@ -150,7 +163,7 @@ def run(ctx):
     for c in cases:
         b, ids, dry, _, _ = info[c["id"]]
         r = res1.get(c["id"])
-        if r is None or dry:
+        if r is None or dry or b.get("long"):
             continue
         nbase = len(b["steps"])
         if r[nbase].get("result") != "ok":
